@@ -109,12 +109,29 @@ func genC11(t *rapid.T) any {
 		c.Subs = append(c.Subs, "sub fn_s(STRING var.p) STRING {\n  if (var.p == \"x\") {\n    return fn_s(var.p \"y\");\n  }\n  return var.p;\n}\n")
 		feat["functional-sub"] = true
 	}
+	if rapid.IntRange(0, 2).Draw(t, "regroup") == 0 {
+		// capture groups: one subroutine matches with groups, a functional and a plain subroutine read re.group.N
+		// without a match of their own (what they report must not depend on which subroutine was linted before)
+		c.Subs = append(c.Subs, "sub captures {\n  if (req.http.X-A ~ \"^(a)(b)(c)\") {\n    set req.http.X-G = re.group.2;\n  }\n}\n")
+		c.Subs = append(c.Subs, "sub fn_group STRING {\n  return re.group.1;\n}\n")
+		if rapid.Bool().Draw(t, "regroup-plain") {
+			c.Subs = append(c.Subs, "sub reads_group {\n  set req.http.X-G2 = re.group.3;\n}\n")
+		}
+		feat["capture-groups-across-subs"] = true
+	}
+	regroup := feat["capture-groups-across-subs"]
 	if rapid.IntRange(0, 3).Draw(t, "unused") == 0 {
 		c.Subs = append(c.Subs, "sub never_called {\n  set req.http.X-U = \"1\";\n}\n")
 		feat["unused-sub"] = true
 	}
 	// lifecycle subs
 	recvExtra := calls(nUser, -1)
+	if regroup {
+		recvExtra = append(recvExtra, "  call captures;", "  set req.http.X-FG = fn_group();")
+		if strings.Contains(strings.Join(c.Subs, ""), "sub reads_group") {
+			recvExtra = append(recvExtra, "  call reads_group;")
+		}
+	}
 	inc := rapid.SampledFrom([]string{"", "", "root-present", "root-missing", "root-self", "root-mutual", "stmt-present", "stmt-self", "stmt-mutual", "stmt-missing", "stmt-self-nested", "stmt-mutual-nested", "stmt-sibling-then-self"}).Draw(t, "include")
 	if inc != "" {
 		feat["include:"+inc] = true
